@@ -373,6 +373,23 @@ OBS_NAMES = ["AtMostOneGo", "GoOnlyAfterRH", "ReceiverNeedsGo", "SameLink", "Key
              "WinnerReturned"]
 
 
+GOALS = {
+    # S said nevermind somewhere (a second complete receiver handshake after the choice)
+    "nevermind_sent": "\\E l \\in Links : \\E i \\in 1..Len(sent[l].S) : sent[l].S[i] = \"nevermind\"",
+    # an early inbound winner, and connect() called afterwards on that party
+    "early_winner_then_start": "winner # \"-\" /\\ started.S /\\ last[1] = \"Start\" /\\ last[2] = \"S\"",
+    "early_rwin_then_start": "rwin # \"-\" /\\ started.R /\\ last[1] = \"Start\" /\\ last[2] = \"R\"",
+    # the winner's connection is lost after the choice
+    "winner_lost": "winner # \"-\" /\\ st[winner].S = \"lost\"",
+    # a deadline with a half-delivered unit pending
+    "deadline_with_partial": "\\E p \\in Party : deadline[p] /\\ \\E l \\in Links : buf[l][p] = \"part\"",
+    # both failed
+    "both_failed": "result.S = \"failed\" /\\ result.R = \"failed\"",
+    # one has a link, the other failed
+    "split_outcome": "(result.S \\in Links /\\ result.R = \"failed\") \\/ (result.R \\in Links /\\ result.S = \"failed\")",
+}
+
+
 def consts_for(kinds, scripts, cut, partial):
     return dict(Links=set(kinds), Kind=Raw("[" + ", ".join('%s |-> "%s"' % (l, k) for l, k in kinds.items()) + "]"),
                 Script=Raw("[" + ", ".join("%s |-> %s" % (l, common.tla_value(scripts[l]) if scripts.get(l) else "<<>>")
@@ -442,6 +459,18 @@ def run(prop, tier):
                     depth=40, seed=seed + 11, timeout=900)
             for tr in tlc.read_sim_traces(os.path.join(simdir, "tr")):
                 behaviours.append(("tlc-sim", tr))
+            # coverage goals: shortest behaviours reaching situations random simulation seldom does
+            goals = dict(GOALS)
+            for l, k in kinds.items():
+                if k in ("s2r", "r2s", "relay"):
+                    goals["both_on_" + l] = 'result.S = "%s" /\\ result.R = "%s"' % (l, l)
+                    goals["early_winner_" + l] = '~started.S /\\ winner = "%s"' % l
+                    goals["early_rwin_" + l] = '~started.R /\\ rwin = "%s"' % l
+            wit, unreached = common.witnesses(wd, "Transit", consts_for(kinds, scripts, cut=(name != "three"), partial=True), goals,
+                                              "MC_C07_goal_" + name)
+            cov.setdefault("witness_goals", {})[name] = {"reached": [g for g, _ in wit], "unreached": unreached}
+            for g, tr in wit:
+                behaviours.append(("tlc-witness:" + g, tr))
             for origin, tr in behaviours:
                 tid += 1
                 w, rec, drift = replay_behaviour(tid, kinds, scripts, tr, random.Random(seed * 31 + tid))
